@@ -126,6 +126,26 @@ func (c *Ctx) routerFlows() []*routerFlow {
 										mark(sc.Params[i])
 									}
 								}
+							} else if !com.IsInvoke() {
+								// a function value (e.g. a table of route registrars): the callees the call graph resolves
+								passes := false
+								for _, a := range com.Args {
+									if fl.derived[a] {
+										passes = true
+									}
+								}
+								if passes {
+									for _, e := range g.vtaOut[fn] {
+										if e.Site != ci || e.Fallback || len(e.Callee.Blocks) == 0 {
+											continue
+										}
+										for i, a := range com.Args {
+											if fl.derived[a] && i < len(e.Callee.Params) {
+												mark(e.Callee.Params[i])
+											}
+										}
+									}
+								}
 							}
 						}
 					}
@@ -339,7 +359,7 @@ var ruleK1 = &Rule{
 
 var ruleK2 = &Rule{
 	ID:    "K2",
-	Floor: 60,
+	Floor: 30, // route tables walked by a loop register many routes from one call site
 	Doc: "every route lands on an authenticated router: each HandleFunc/Handle/PathPrefix/… call on a *mux.Router in live code has a receiver that flows (phis, locals, parameters, closure bindings) from a mux.NewRouter() checked by K1; " +
 		"every listener (http.Serve/ListenAndServe/…, http.Server{Handler}) serves such a router; no handler is registered on net/http's default mux except that router itself",
 	Run: func(c *Ctx) []Obl {
@@ -643,6 +663,12 @@ func (c *Ctx) authInstallSSA(use ssa.CallInstruction) (bool, string) {
 	}
 	if ix, ok := m.(*ssa.Index); ok {
 		sl = ix.X
+	}
+	if sl == nil {
+		// Use(chain...) with the whole chain spread
+		if _, isSlice := m.Type().Underlying().(*types.Slice); isSlice {
+			sl = m
+		}
 	}
 	if sl == nil {
 		return false, "the first middleware installed is neither BasicAuthMiddleware(user, pass) nor the first element of a middleware chain"
